@@ -18,7 +18,7 @@ RADII = {"SE2": (0.3, 0.2, 0.03), "SE3": (0.1, 0.05, 0.02)}
 META = {
     "rule": "every combination of: family {ring, eight, grid | ring, helix} x size n in {3,6,12} (thorough +24,40) x initial-guess perturbation pattern {plus, minus, alt, sin, cos} x "
     "measurement-noise pattern {zero, alt, sin} x radius {full, half} (thorough: {1, .75, .5, .25}) of the calibrated neighbourhood (SE2: dt .3, dtheta .2, noise .03; SE3: dt .1, dq .05, noise .02) x tol in "
-    "{1e-10,1e-6,1e-3} x information scale {1, 1e-6 (pattern alt only)}, max_iter 50; for pattern alt also three histories: an earlier coarser run (tol 1e-3) on the same Graph object, an earlier iteration with the anchor at another vertex, a landmark entered twice with both vertices seeded from ONE shared pose object. Oracles: final_chi2 <= initial_chi2; Newton decrement b^T H^-1 b of the returned state, from the "
+    "{1e-10,1e-6,1e-3} x information scale {1, 1e-6, 1e-10 (pattern alt only)}, max_iter 50; for pattern alt also three histories: an earlier coarser run (tol 1e-3) on the same Graph object, an earlier iteration with the anchor at another vertex, a landmark entered twice with both vertices seeded from ONE shared pose object. Oracles: final_chi2 <= initial_chi2; Newton decrement b^T H^-1 b of the returned state, from the "
     "REFERENCE error model with 5-point Jacobians, <= 10 tol chi2_final + floor; noise-free: every optimised pose (relative to the fixed first pose) equals ground truth within 1e-7. "
     "non-trivial = initial chi2 > 1e-6 (the run has to move)",
     "assumptions": ["claim limited to the calibrated neighbourhood and the listed families (undamped Gauss-Newton may legitimately diverge outside)", "reference error model + 5-point Jacobians + numpy solve trusted; the converged flag is C12's business"],
@@ -46,7 +46,7 @@ def run_chunk(chunk, tier, seed):
     for noise in SF.NOISE_PATTERNS:
         for rad in ((1.0, 0.5) if tier == "quick" else (1.0, 0.75, 0.5, 0.25)):
             for tol in TOLS:
-                for osc in ((1.0, 1e-6) if pert == "alt" else (1.0,)):
+                for osc in ((1.0, 1e-6, 1e-10) if pert == "alt" else (1.0,)):
                     _do(acc, {"kind": kind, "fam": fam, "n": n, "pert": pert, "noise": noise, "rad": rad, "tol": tol, "oscale": osc, "seed": seed})
                 if pert == "alt" and rad == 1.0:
                     # histories / object reuse: the judged run is not the first thing that happens to the Graph object
